@@ -47,6 +47,9 @@ type Behaviour struct {
 	Level   int32 `json:"level,omitempty"`
 	// Stream is the list of replies of a server-stream handler.
 	Stream []StreamItem `json:"stream,omitempty"`
+	// StreamEndless makes a server-stream handler keep sending replies (after
+	// the scripted ones) until sending fails or the case is torn down.
+	StreamEndless bool `json:"stream_endless,omitempty"`
 	// EndGate makes a server-stream handler wait for gate number len(Stream)
 	// before it returns (with its error or nil).
 	EndGate bool `json:"end_gate,omitempty"`
@@ -433,6 +436,29 @@ func (s *impl) stream(ctx gorums.ServerCtx, method string, req *puppet.Req, send
 		if err := send(rep); err != nil {
 			s.c.Log.Add(Event{Kind: "exit", Server: s.i, Conn: conn, Call: call, Method: method, Token: req.GetToken(), Seq: req.GetSeq(), Note: "send failed: " + err.Error()})
 			return err
+		}
+	}
+	if b.StreamEndless {
+		// an unbounded stream; only the first extra reply is logged
+		for k := len(items); ; k++ {
+			select {
+			case <-s.c.teardown:
+				k = -1
+			default:
+			}
+			if k < 0 {
+				break
+			}
+			serial := s.nextSerial()
+			rep := &puppet.Rep{Token: req.GetToken(), Seq: req.GetSeq(), Node: uint32(s.i), Serial: serial, Level: int32(k + 1), NodeTag: req.GetNodeTag()}
+			if k == len(items) {
+				s.c.Log.Add(Event{Kind: "send", Server: s.i, Conn: conn, Call: call, Method: method, Token: req.GetToken(), Seq: req.GetSeq(),
+					Serial: serial, Item: k, Level: k + 1, Note: "endless stream starts"})
+			}
+			if err := send(rep); err != nil {
+				s.c.Log.Add(Event{Kind: "exit", Server: s.i, Conn: conn, Call: call, Method: method, Token: req.GetToken(), Seq: req.GetSeq(), Note: "endless stream ended: " + err.Error()})
+				return err
+			}
 		}
 	}
 	if b.EndGate {
